@@ -46,4 +46,14 @@ PROPS = {
         "assumptions": ["health records and master state are the inputs the manager iteration passes in"],
         "theorem_status": {"all": "full for the decision function and for every response of every call of the execution part"},
     },
+    "C04": {
+        "corr": ["Corr/C04.vo"],
+        "harness": [{"pkg": APP, "test": "TestVerifC04"}],
+        "trusted": ["fake MySQL semantics for the semi-sync variables; in-memory DCS; manager view produced by the real getClusterStateFromDB in the harness",
+                    "Go map iteration order in disableSemiSyncOnSlaves / the async branch is modelled as an unordered parallel step",
+                    "(a)/(b) and the prefix-preservation clause are evaluated on the fake servers by the implementation-side monitor; 5 root causes are known findings"],
+        "assumptions": ["hosts on recovery, master GTID and server uuid are what the calls return; binlog names have equal length (numeric order = string order)"],
+        "theorem_status": {"C04_evict_needs_master / C04_membership / C04_update_footprint / C04_recovery_removes_from_list_first": "full (oracle semantics)",
+                           "(a),(b) complete iteration, prefix preservation, no-lagging-member": "refuted on the real code: KNOWN_FINDINGS.json C04-R1..R5 (re-observed by the monitor on every run)"},
+    },
 }
